@@ -41,7 +41,8 @@ CLAIMS = {
   text="Kernel-checked over canonical limbs and ZMod n: Add, Subtract, Multiply, Square exact and canonical (aliasing is sound: the translator refuses reads after the first output write); "
        "Invert = x^-1 (0 -> 0) through the regenerated 293-step chain; SetUInt64 for every 64-bit value; Zero/One/MinusOne; nil conventions; Pow = s^t.",
   note=TB + "Pow goes through math/big, modelled as exact modular powering (assumed). The methods Zero/One/MinusOne/Add/Subtract/Multiply/Square/Set/SetUInt64/IsZero/IsOne of scalar.go are regenerated (nil as none) and tied by rfl; "
-       "Pow and Invert wrappers are hand models tied by the scarith/sfarith families (boundary x boundary prefix)."),
+       "Pow (math/big modelled: SetBytes, Exp, Bytes), Invert (through scalar.Invert and the regenerated chain), Set and Copy are regenerated too and proved equal to the model (pow_regenerated, "
+       "invert_regenerated); the scarith/sfarith families (boundary x boundary prefix) run the real code."),
  "C07": dict(
   technique="Lean 4 proof: scalar Encode/Decode refine big-endian integers below n (Reduce borrow chain and Montgomery conversions proved)",
   text="Kernel-checked: Encode is the 32-byte big-endian canonical value; Decode accepts exactly 32-byte strings below n and stores that integer, rejects the empty input, other lengths and values >= n "
@@ -108,7 +109,8 @@ CLAIMS = {
  "C18": dict(
   technique="Lean 4 proof over a byte-stream model of Random (rejection loop, Reduce, ToMontgomery proved) + correspondence with a scripted entropy source",
   text="Kernel-checked: for every byte stream Random returns the first 32-byte block whose value mod n is non-zero, reduced and canonical, never zero, and panics exactly when the stream ends before such a block; one conditional subtraction suffices.",
-  note=TB + "crypto/rand.Reader and io.ReadFull are modelled as a byte stream; tied by the rnd family (blocks 0, n, n+k, 2^256-1, short reads, early EOF)."),
+  note=TB + "Random is regenerated on every run (for-cond loop with an explicit iteration bound, crypto/rand.Reader as a hidden stream parameter, io.ReadFull modelled) and proved to return what the model "
+       "returns for every stream and every sufficient bound (random_regenerated); the rnd family (blocks 0, n, n+k, 2^256-1, short reads, early EOF) runs the real code."),
  "C19": dict(
   technique="Lean 4 proof over the statically extracted schedule of field operations of multiply + recorded traces from an instrumented scratch copy",
   text="Kernel-checked on the regenerated schedule: both branches of a ladder iteration perform the same list of calls into the field/scalar packages, so the trace of Multiply is the same for every scalar that does not take the "
